@@ -125,7 +125,7 @@ Definition ex_value2 : value :=
          VList [VList [VStr [97]; VStr []]]; VOpt (Some (VStr [])); VOpt (Some (VList []))].
 Example C14_nonvacuous_tl2 :
   tl2_ok ex_desc2 = true /\ wf2 ex_desc2 ex_value2 = true /\
-  enc2 ex_desc2 ex_value2 = [27; 212; 251;255;255;255; 2;104;105; 2;1;2; 5;2;0;1;120; 1; 7; 5;1;3;2;1;97; 0] /\
+  enc2 ex_desc2 ex_value2 = [25; 236; 251;255;255;255; 2;104;105; 2;1;2; 4;2;0;1;120; 1; 7; 5;1;3;2;1;97; 0] /\
   dec2 ex_desc2 (enc2 ex_desc2 ex_value2 ++ [9]) = Some (ex_value2, [9]) /\
   enc2 ex_desc2 (default ex_desc2) = [0].
 Proof. vm_compute. auto 10. Qed.
